@@ -41,6 +41,8 @@ public:
     //! Evaluates the dict_ at value 2**x
     integer_class eval_bit(const unsigned int &x) const
     {
+        if (dict_.empty())
+            return integer_class(0);
         unsigned int last_deg = dict_.rbegin()->first;
         integer_class result(0);
 
@@ -56,6 +58,8 @@ public:
 
     static UIntDict mul(const UIntDict &a, const UIntDict &b)
     {
+        if (a.dict_.empty() or b.dict_.empty())
+            return UIntDict();
         int mul = 1;
 
         unsigned int N = bit_length(std::min(a.degree() + 1, b.degree() + 1))
@@ -102,6 +106,8 @@ public:
 
     integer_class max_abs_coef() const
     {
+        if (dict_.empty())
+            return integer_class(0);
         integer_class curr(mp_abs(dict_.begin()->second));
         for (const auto &it : dict_) {
             if (mp_abs(it.second) > curr)
